@@ -336,7 +336,7 @@ theorem default_normal_event (cfg : DefaultCfg) (ambient : Props) (c : Call) :
     (defaultComplete cfg false ambient c).props =
       (match cfg.lvl with | some l => [("lvl", l)] | none => []) ++
         [("evt_kind", "span"), ("span_name", c.name)] ++ c.props ++ ambient ∧
-    (defaultComplete cfg false ambient c).extent = c.extent ∧
+    (defaultComplete cfg false ambient c).extent = rangeExt c.extent ∧
     (defaultComplete cfg false ambient c).mdl = c.mdl := by
   refine ⟨?_, rfl, rfl⟩
   simp only [defaultComplete]
@@ -350,5 +350,51 @@ example : calls (new true 7 d0) [some 5, some 3] [.withName "x", .start, .withCo
     = [⟨9, "m", "x", [("a", "b"), ("k", "v")], some (5, 3)⟩] := by decide
 example : calls (new false 7 d0) [some 5, some 9] [.start, .withCompletion 9, .complete, .drop] = [] := by decide
 example : calls (new true 7 d0) [some 5] [.start, .start, .completeWith 4, .drop, .complete] = [⟨4, "m", "n", [("k", "v")], none⟩] := by decide
+
+end EmitModel.C05
+
+namespace EmitModel.C05
+open EmitModel.SpanGuard
+
+/-! ### Macro forms -/
+
+/-- The level and error the property promises for each exit path of a macro-instrumented span. -/
+def expectedLvl (c : MacroCfg) : Exit → Option Str
+  | .panic => some (c.panicLvl.getD "error")
+  | .ok => if c.useResult then c.okLvl.or c.lvlDefault else c.lvlDefault
+  | .err => if c.useResult then some ((c.errLvl.or c.lvlDefault).getD "error") else c.lvlDefault
+
+def expectedErr (c : MacroCfg) (errText : Str) : Exit → Option Str
+  | .panic => some "panicked"
+  | .ok => none
+  | .err => if c.useResult then some errText else none
+
+/-- **Macro forms complete exactly once on every exit path** — fall-through, early return, error propagation
+    and panic unwinding — when enabled, never when filtered out; the single event carries the level and error
+    the attributes ask for (`ok_lvl`/`err_lvl`/`panic_lvl`/default level, `err` mapper), the span's name and
+    module, kind span, and the extent from the start reading to the completion reading. -/
+theorem macro_exactly_once (c : MacroCfg) (exit : Exit) (a b : Option Ts) (clk : Clock)
+    (mdl name tpl errText : Str) (ambient : Props)
+    (hamb : lookupFirst "lvl" ambient = none ∧ lookupFirst "err" ambient = none) :
+    macroRun c false exit (a :: b :: clk) mdl name tpl errText ambient = [] ∧
+    ∃ e, macroRun c true exit (a :: b :: clk) mdl name tpl errText ambient = [e] ∧
+      e.mdl = mdl ∧ e.tpl = tpl ∧ (∀ x y, a = some x → b = some y → e.extent = some (.range x y)) ∧
+      lookupFirst "lvl" e.props = expectedLvl c exit ∧
+      lookupFirst "err" e.props = expectedErr c errText exit ∧
+      lookupFirst "span_name" e.props = some name ∧ lookupFirst "evt_kind" e.props = some "span" := by
+  obtain ⟨h1, h2⟩ := hamb
+  refine ⟨?_, ?_⟩
+  · have := disabled_never compDefault ⟨mdl, name, []⟩ (a :: b :: clk) (macroProgram c exit)
+    simp [macroRun, calls] at this ⊢
+    simp [this]
+  · cases exit <;> cases hr : c.useResult <;> cases hm : c.manual <;>
+      simp [macroRun, hm, macroProgram, hr, run, step, new, completeCore, dropCalls, now, movedFrom, macroEvent,
+        compDefault, compOk, compErr, defaultComplete, timerExtent, rangeExt, lookupFirst, expectedLvl, expectedErr, h1, h2] <;>
+      (try cases c.lvlDefault) <;> (try cases c.okLvl) <;> (try cases c.errLvl) <;> (try cases c.panicLvl) <;>
+      simp_all [lookupFirst, Option.or, rangeExt, timerExtent] <;>
+      (try (intro x y hx hy; subst hx; subst hy; simp [timerExtent, rangeExt]))
+
+example : macroRun ⟨some "info", none, some "warn", false, false, none, false⟩ true .err [some 1, some 4] "m" "n" "t" "boom" []
+    = [⟨"m", "t", some (.range 1 4), [("lvl", "warn"), ("err", "boom"), ("evt_kind", "span"), ("span_name", "n")]⟩] := by decide
 
 end EmitModel.C05
